@@ -8,9 +8,14 @@ CONSTANTS
   PopHead = FALSE
   MaxCalls = 1
   WakeCheck = TRUE
+  Tids = {i0, i1, i2}
+  GiveBack = TRUE
 INVARIANT ResolveReturns
 INVARIANT NoLostWakeup
 INVARIANT RequestOut
 INVARIANT Recorded
 INVARIANT SnlFits
+INVARIANT PoolConserved
+INVARIANT NeverStarves
+SYMMETRY TidSym
 CHECK_DEADLOCK FALSE
